@@ -12,6 +12,10 @@
 (*          addrs}]  (Cell::get_formula, DefinedName::get_address, chart   *)
 (*          series Formula::get_address_str)                               *)
 (*                                                                         *)
+(* With load = TRUE the driver saves the workbook to memory and reads it   *)
+(* back before the history; a cell {.., si, members} is then the master of *)
+(* a shared-formula group whose members are listed by position.            *)
+(*                                                                         *)
 (* Judgement of a step: the host cell of every formula is where Sheet/Grid *)
 (* arithmetic puts it and its text is an acceptable rendering of the       *)
 (* shifted token list (intended), or it is exactly what an open known      *)
@@ -36,16 +40,29 @@ NoWb == [sheets |-> <<>>, cells |-> {}, names |-> {}, charts |-> {}]
 (* chart number i of the event list is the k-th chart of its sheet *)
 ChartNo(e, i) == Cardinality({j \in 1..i : e.charts[j].on = e.charts[i].on})
 
+(* A cell may be the master of a shared-formula group (only in a workbook read from a file, e.load): each member  *)
+(* {r, c} of x.members then carries the master's formula translated to the member's position (Formula!TranslateF). *)
+MemberCells(x) == {[s |-> x.s, r |-> m.r, c |-> m.c, f |-> TranslateF(x.toks, m.c - x.c, m.r - x.r)] : m \in ToSet(x.members)}
 WbOf(e) == [sheets |-> e.sheets,
-            cells  |-> {[s |-> x.s, r |-> x.r, c |-> x.c, f |-> x.toks] : x \in ToSet(e.cells)},
+            cells  |-> {[s |-> x.s, r |-> x.r, c |-> x.c, f |-> x.toks] : x \in ToSet(e.cells)}
+                       \cup UNION {MemberCells(x) : x \in ToSet(e.cells)},
             names  |-> {[on |-> x.on, name |-> x.name, t |-> x.tok] : x \in ToSet(e.names)},
             charts |-> {[on |-> e.charts[i].on, i |-> ChartNo(e, i), ts |-> e.charts[i].toks] : i \in DOMAIN e.charts}]
 QualifiedRef(t) == t.k = "ref" /\ t.qc # <<>> /\ t.g.k \in {"cell", "rect"}
 InitGenOk(e) ==
   /\ \A i \in DOMAIN e.cells : LET x == e.cells[i] IN
         /\ x.s \in DOMAIN e.sheets /\ x.r >= 1 /\ x.r <= MaxRow /\ x.c >= 1 /\ x.c <= MaxCol
-        /\ InClass(x.toks) /\ x.f = Render(x.toks)
+        /\ InClassFor(x.toks, Enabled) /\ x.f = Render(x.toks)
         /\ \A j \in DOMAIN e.cells : (j # i) => ~(e.cells[j].s = x.s /\ e.cells[j].r = x.r /\ e.cells[j].c = x.c)
+        /\ (x.members # <<>>) => e.load
+        /\ \A k \in DOMAIN x.members : LET m == x.members[k] IN
+              /\ m.r >= 1 /\ m.r <= MaxRow /\ m.c >= 1 /\ m.c <= MaxCol
+              /\ (m.r > x.r \/ (m.r = x.r /\ m.c > x.c))                 \* the master is read first
+              /\ \A t \in ToSet(TranslateF(x.toks, m.c - x.c, m.r - x.r)) : t.k # "referr"   \* stays in the grid
+  (* no two formula cells (masters, members, ordinary) in one place *)
+  /\ LET all == {[s |-> x.s, r |-> x.r, c |-> x.c] : x \in ToSet(e.cells)}
+                 \cup UNION {{[s |-> x.s, r |-> m.r, c |-> m.c] : m \in ToSet(x.members)} : x \in ToSet(e.cells)}
+     IN Cardinality(all) = Len(e.cells) + FoldSeq(LAMBDA x, acc : acc + Len(x.members), 0, e.cells)
   /\ \A i \in DOMAIN e.names : LET x == e.names[i] IN
         /\ x.on \in (0..Len(e.sheets)) /\ QualifiedRef(x.tok) /\ x.addr = TokText(x.tok)
         /\ \A j \in DOMAIN e.names : (j # i) => ~(e.names[j].on = x.on /\ e.names[j].name = x.name)
@@ -75,7 +92,8 @@ ChartOk(o, x, ts) == LET S == ObsChartAt(o, x.on, x.i)
 
 InitObsOk(W, e, o) ==
   /\ NoDupObs(o) /\ Len(o.cells) = Cardinality(W.cells)
-  /\ \A x \in W.cells : \E y \in ObsCellAt(o, x.s, x.r, x.c) : y.f = Render(x.f)
+  (* set_formula / get_formula keep the text; after a load the text may be any acceptable rendering *)
+  /\ \A x \in W.cells : \E y \in ObsCellAt(o, x.s, x.r, x.c) : IF e.load THEN Accepts(x.f, y.f) ELSE y.f = Render(x.f)
   /\ Len(o.names) = Cardinality(W.names) /\ \A x \in W.names : NameOk(o, x, x.t)
   /\ Len(o.charts) = Cardinality(W.charts)
   /\ \A x \in W.charts : ChartOk(o, x, x.ts)
@@ -126,7 +144,7 @@ NextCharts(W, e, o) ==
   {[x EXCEPT !.ts = IF ChartIntended(W, e, o, x) THEN MapSeq(x.ts, LAMBDA t : ChartWantTok(W, e, t))
                     ELSE MapSeq(x.ts, LAMBDA t : ChartImplTok(W, e, t))] : x \in {y \in W.charts : ObsChartAt(o, y.on, y.i) # {}}}
 (* tokens the specification can keep following *)
-NormalRef(t) == t.k = "ref" => (GInGrid(t.g) /\ (Two(t.g) => (t.g.c1 <= t.g.c2 /\ t.g.r1 <= t.g.r2)))
+NormalRef(t) == t.k = "ref" => GInGrid(t.g)
 Followable(W2) == /\ \A x \in W2.cells : ~HasRaw(x.f) /\ \A j \in DOMAIN x.f : NormalRef(x.f[j])
                   /\ \A x \in W2.names : x.t.k = "ref" /\ NormalRef(x.t)       \* a deleted name is not followed further
                   /\ \A x \in W2.charts : \A j \in DOMAIN x.ts : x.ts[j].k = "ref" /\ NormalRef(x.ts[j])
